@@ -187,27 +187,75 @@ def _join_semantic(prog: Program, res: Result) -> bool:
     fi = prog.func(q)
     fn = fi.node
     itp = [c for c in ast.walk(fn) if isinstance(c, ast.Call) and attr_chain(c.func) == "interp1d"]
-    if len(itp) != 1 or len(itp[0].args) < 2 or not all(isinstance(a, ast.Name) for a in itp[0].args[:2]):
+    if not itp or any(len(c.args) < 2 for c in itp):
         return False
-    xname, yname = itp[0].args[0].id, itp[0].args[1].id
     STS, LTS, GS, GL = "log_time_sts", "log_time_lts", "g_sts", "g_lts"
+    PARAMS = (STS, LTS, GS, GL)
+    xname, yname = "x", "y"
+
+    # pieces and joins are followed through locals on each path: a piece is (parameter, cut) with cut = 'FULL' or the value
+    # of the slice's upper bound WHEN THE PIECE WAS TAKEN; a join is (piece, piece)
+    def piece(e, st, eng):
+        if isinstance(e, ast.Name):
+            if e.id in PARAMS and f"piece:{e.id}" not in st.env:
+                return (e.id, "FULL")
+            return st.env.get(f"piece:{e.id}")
+        if isinstance(e, ast.Subscript) and isinstance(e.slice, ast.Slice) and e.slice.step is None and isinstance(e.value, ast.Name):
+            base = piece(e.value, st, eng)
+            if base is None or base[1] != "FULL":
+                return None
+            lo = eng.eval(e.slice.lower, st) if e.slice.lower is not None else Rat.const(0)
+            cut = eng.eval(e.slice.upper, st) if e.slice.upper is not None else "FULL"
+            if not (isinstance(lo, Rat) and lo.is_zero()) or not (cut == "FULL" or isinstance(cut, Rat)):
+                return (base[0], None)
+            return (base[0], cut)
+        return None
+
+    def join(e, st, eng):
+        if isinstance(e, ast.Name):
+            return st.env.get(f"join:{e.id}")
+        if isinstance(e, ast.BinOp) and isinstance(e.op, ast.Add):
+            l, r = piece(e.left, st, eng), piece(e.right, st, eng)
+            if l is not None and r is not None:
+                return (l, r)
+        return None
 
     class H(Hooks):
         def on_stmt(self, s_, st, eng):
-            if isinstance(s_, ast.Assign) and len(s_.targets) == 1 and isinstance(s_.targets[0], ast.Name) and s_.targets[0].id in (xname, yname) \
-                    and isinstance(s_.value, ast.BinOp) and isinstance(s_.value.op, ast.Add):
-                l, r = s_.value.left, s_.value.right
-                cut = "FULL"
-                base = l
-                if isinstance(l, ast.Subscript) and isinstance(l.slice, ast.Slice) and l.slice.step is None:
-                    base = l.value
-                    lo = eng.eval(l.slice.lower, st) if l.slice.lower is not None else Rat.const(0)
-                    cut = eng.eval(l.slice.upper, st) if l.slice.upper is not None else "FULL"
-                    if not (isinstance(lo, Rat) and lo.is_zero()):
-                        cut = None
-                st.emit("JOIN", (s_.targets[0].id, ast.unparse(base), cut, ast.unparse(r)), s_)
-                st.env[s_.targets[0].id] = Rat.atom(f"JOINED_{s_.targets[0].id}")
-                return [st]
+            if isinstance(s_, ast.Assign) and len(s_.targets) == 1:
+                t_, v_ = s_.targets[0], s_.value
+                pairs = [(t_, v_)] if isinstance(t_, ast.Name) else (list(zip(t_.elts, v_.elts)) if isinstance(t_, ast.Tuple) and isinstance(v_, ast.Tuple) and len(t_.elts) == len(v_.elts) else [])
+                hit = False
+                for tt, vv in pairs:
+                    if not isinstance(tt, ast.Name):
+                        continue
+                    j = join(vv, st, eng) if isinstance(vv, (ast.BinOp, ast.Name)) else None
+                    pc = piece(vv, st, eng) if isinstance(vv, (ast.Name, ast.Subscript)) else None
+                    if j is None and pc is None:
+                        continue  # evaluated by the engine; on_assign drops what the name stood for
+                    st.env.pop(f"join:{tt.id}", None)
+                    st.env.pop(f"piece:{tt.id}", None)
+                    if j is not None and not (isinstance(vv, ast.Name) and pc is not None):
+                        st.env[f"join:{tt.id}"] = j
+                        st.env[tt.id] = Rat.atom(f"JOINED_{tt.id}")
+                        hit = True
+                    elif pc is not None:
+                        st.env[f"piece:{tt.id}"] = pc
+                        st.env[tt.id] = Rat.atom(f"PIECE_{tt.id}")
+                        hit = True
+                if hit and all(isinstance(tt, ast.Name) and (f"join:{tt.id}" in st.env or f"piece:{tt.id}" in st.env) for tt, _ in pairs):
+                    return [st]
+            return None
+
+        def on_assign(self, key, val, stmt, st, eng):
+            if key.isidentifier() and not (isinstance(val, Rat) and val.key() in (f"JOINED_{key}", f"PIECE_{key}")):
+                st.env.pop(f"join:{key}", None)
+                st.env.pop(f"piece:{key}", None)
+
+        def on_call(self, node, fname, args, kwargs, st, eng):
+            if fname == "interp1d" and len(node.args) >= 2:
+                st.emit("ITP", (join(node.args[0], st, eng), join(node.args[1], st, eng)), node)
+                return Rat.atom("INTERPOLANT")
             return None
 
     eng = Engine(prog, fi, H(), loop_bound=2, zero_trip=True)
@@ -226,12 +274,13 @@ def _join_semantic(prog: Program, res: Result) -> bool:
 
     decided = []
     for f in finals:
-        joins = {e.data[0]: e for e in f.events if e.kind == "JOIN"}
-        if set(joins) != {xname, yname}:
+        evs = [e for e in f.events if e.kind == "ITP"]
+        if len(evs) != 1 or evs[0].data[0] is None or evs[0].data[1] is None:
             return False
-        (_, xb, xc, xr), (_, yb, yc, yr) = joins[xname].data, joins[yname].data
-        if xc is None or yc is None or not (xc == "FULL" or isinstance(xc, Rat)) or not (yc == "FULL" or isinstance(yc, Rat)):
+        ((xb, xc), (xr, xrc)), ((yb, yc), (yr, yrc)) = evs[0].data
+        if xc is None or yc is None or xrc != "FULL" or yrc != "FULL":
             return False
+        joins = {xname: evs[0], yname: evs[0]}
         decided.append((f, joins, xb, xc, xr, yb, yc, yr))
     seen = set()
     for f, joins, xb, xc, xr, yb, yc, yr in decided:
